@@ -32,6 +32,32 @@ Section ValueInd.
     end.
 End ValueInd.
 
+(* the loop over response-key groups inside exec_sels, as a function of its own *)
+Section Groups.
+  Variable ef : name -> selection -> list selection -> list Exec.pel -> cres.
+  Variable path : list Exec.pel.
+  Fixpoint go_groups (gs : list (name * selection * list selection)) : option (list (bytes * json)) * list xerr :=
+    match gs with
+    | [] => (Some [], [])
+    | (key, s, subs) :: rest =>
+      let r := ef key s subs (path ++ [PN key]) in
+      if c_viol r then (None, c_errs r)
+      else let '(o, e2) := go_groups rest in
+           (match o with Some l => Some ((key, c_json r) :: l) | None => None end, c_errs r ++ e2)
+    end.
+End Groups.
+
+Lemma exec_sels_S S U frags vars md f objty ov sels path :
+  exec_sels S U frags vars md (Datatypes.S f) objty ov sels path =
+  match flatten S frags vars (Datatypes.S f) objty sels with
+  | FlatBad e => (None, [e])
+  | FlatOk fl => go_groups (exec_field S U frags vars md f objty ov) path (group (Datatypes.S (length fl)) fl)
+  end.
+Proof. reflexivity. Qed.
+
+Lemma fold_left_ext {A B} (f g : A -> B -> A) l : (forall a b, f a b = g a b) -> forall a, fold_left f l a = fold_left g l a.
+Proof. intros H. induction l as [| x l IH]; intros a; simpl; [reflexivity |]. now rewrite H, IH. Qed.
+
 Section RenameExec.
   Variable sg : name -> name.
   Hypothesis sg_inj : injective sg.
@@ -284,5 +310,69 @@ Section RenameExec.
     rewrite (filter_map_R (fun x => negb (bytes_eqb (sel_key x) (sel_key s)))) by (intros; now rewrite sel_key_R).
     rewrite IH. f_equal. f_equal.
     exact (subs_R (s :: filter (fun x => bytes_eqb (sel_key x) (sel_key s)) rest)).
+  Qed.
+
+  Lemma go_groups_rename (ef' ef : name -> selection -> list selection -> list Exec.pel -> cres) path gs :
+    (forall k s subs p, ef' k (R s) (map R subs) p = ef k s subs p) ->
+    go_groups ef' path (map group_R gs) = go_groups ef path gs.
+  Proof.
+    intros H. induction gs as [| [[k s] subs] gs IH]; simpl; [reflexivity |].
+    rewrite H, IH. reflexivity.
+  Qed.
+
+  (* ---- the executor ---- *)
+  Definition P_sels (fuel : nat) : Prop := forall objty ov sels path,
+    exec_sels S U frags' vars' md fuel objty ov (map R sels) path = exec_sels S U frags vars md fuel objty ov sels path.
+  Definition P_field (fuel : nat) : Prop := forall objty ov key s subs path,
+    exec_field S U frags' vars' md fuel objty ov key (R s) (map R subs) path =
+    exec_field S U frags vars md fuel objty ov key s subs path.
+  Definition P_complete (fuel : nat) : Prop := forall t ov fname cargs fv subs path,
+    complete S U frags' vars' md fuel t ov fname cargs fv (map R subs) path =
+    complete S U frags vars md fuel t ov fname cargs fv subs path.
+
+  Lemma exec_rename_all : forall fuel, P_sels fuel /\ P_field fuel /\ P_complete fuel.
+  Proof.
+    induction fuel as [| f [IHs [IHf IHc]]].
+    - repeat split; intros; reflexivity.
+    - split; [| split].
+      + (* exec_sels *)
+        intros objty ov sels path. rewrite !exec_sels_S.
+        rewrite flatten_rename.
+        destruct (flatten S frags vars (Datatypes.S f) objty sels) as [fl | e]; simpl; [| reflexivity].
+        rewrite map_length, group_rename.
+        apply go_groups_rename. intros k s subs p. apply IHf.
+      + (* exec_field *)
+        intros objty ov key s subs path.
+        destruct s as [a fname args dirs ss | c dirs ss | n dirs]; [| reflexivity | reflexivity].
+        simpl.
+        destruct (bytes_eqb fname s_typename); [reflexivity |].
+        destruct (match md with Mono => false | Sub => bytes_eqb fname s_entities && bytes_eqb objty (s_query S) end).
+        * rewrite assoc_rename_args.
+          assert (E : match option_map (rename_value sg) (assoc s_representations args) with
+                      | Some v => match lit_json vars' v with Some (JArr l) => l | _ => [] end
+                      | None => [] end =
+                      match assoc s_representations args with
+                      | Some v => match lit_json vars v with Some (JArr l) => l | _ => [] end
+                      | None => [] end).
+          { destruct (assoc s_representations args); simpl; [now rewrite lit_json_rename' | reflexivity]. }
+          rewrite E.
+          erewrite fold_left_ext; [reflexivity |].
+          intros [[[items errs] viol] i] r. destruct (find_by_repr U r); [| reflexivity]. now rewrite IHs.
+        * destruct (find_type objty (s_types S)) as [td |] eqn:Etd; [| reflexivity].
+          destruct (find_field fname (td_fields td)) as [fd |] eqn:Efd; [| reflexivity].
+          rewrite coerce_args_rename.
+          -- apply IHc.
+          -- intros d Hd. apply (closed_args td fd d); [now apply find_type_in in Etd | now apply find_field_in in Efd | exact Hd].
+      + (* complete *)
+        intros t ov fname cargs fv subs path. simpl.
+        destruct t as [n | t' | t'].
+        * destruct (kind_of S n) as [[| | | | |] |]; try reflexivity;
+            (match goal with |- context [match ?tg with Some _ => _ | None => _ end] => destruct tg as [[e |] |] end; try reflexivity;
+             match goal with |- context [if ?c then _ else _] => destruct c end; try reflexivity; now rewrite IHs).
+        * destruct fv as [j | | | items | | | |]; try reflexivity.
+          -- destruct j; try reflexivity. apply IHc.
+          -- erewrite fold_left_ext; [reflexivity |].
+             intros [[[out errs] viol] i] it. now rewrite IHc.
+        * now rewrite IHc.
   Qed.
 End RenameExec.
